@@ -628,8 +628,13 @@ def handleFilter (req : Json) : R Json := do
         pure ({ before := (← asTable (← fld j "before")), after := (← asTable (← fld j "after")),
                 lk := (← asLookups (← fld j "lk")) } : Bystander Rat)) b
     | none => pure []
-  let v := Verdict.and (Verdict.and (verdictFilterP emptyRaise t ax keep invert inplace obs)
-    (← lookupVerdict oj obs.result obs.after)) (chk "bystander-tables-unchanged" (holdsBystanders bystanders))
+  -- the collection object handed in must come back as it was (`arg_before` / `arg_after`: its elements in order)
+  let argV : Verdict ← match optFld oj "arg_before", optFld oj "arg_after" with
+    | some b, some a => do
+      pure (chk "argument-collection-untouched" (eqb (← asList asStr b) (← asList asStr a)))
+    | _, _ => pure none
+  let v := Verdict.and (Verdict.and (Verdict.and (verdictFilterP emptyRaise t ax keep invert inplace obs)
+    (← lookupVerdict oj obs.result obs.after)) (chk "bystander-tables-unchanged" (holdsBystanders bystanders))) argV
   let m0 := modelFilterObs t layout ax keep invert inplace
   let m := { m0 with result := (filterCallP emptyRaise t layout ax keep invert inplace).result }
   let agree := resEq m.result obs.result && m.after == obs.after && m.calls == obs.calls &&
